@@ -1,6 +1,8 @@
 import PfModel.DriverLib
 import PfModel.Model.CachePolicy
 import PfModel.Model.CachePolicyShared
+import PfModel.Model.CachePolicyTies
+import PfModel.Model.CachePolicyAccess
 /-! Driver for C14 (`cache.run`). Run: `lake env lean --run Driver/C14.lean < requests.jsonl`.
 
 Request `{"kind": "lru"|"hybrid"|"simple"|"disk", "max": n|null, "weights": [wa, wd]?, "lru": n|null?, "keys": [k…],
@@ -14,7 +16,17 @@ process model `PF.Cache.Shared.exec` (lock, critical sections of container acces
 Response: `lin` (`[pid, op]` per entered critical section, in order), `log`
 (`[ticket, pid, observation]` per returned operation), `lock`, and `seq_ok`: the sequential run of the linearisation gives every
 logged result and, when the lock is free, a state with the same length as the shared one (theorem `C14_shared_linearisable`,
-re-evaluated on the executable code). -/
+re-evaluated on the executable code).
+
+`cache.clear_fresh` — `{"kind", "max", "weights"?, "lru"?, "keys", "H": [op…], "E": [op…]}`: runs `H`, then `clear`, then the
+continuation `E` (`after`: one entry per operation of `E`, as `cache.run`), and `E` on a newly constructed container (`fresh`);
+`same`: both give the same observations / the same exception (theorems `C14_clear_resets_*`, re-evaluated on the executable code).
+
+`cache.accesses` — `{"max": n, "H": [op…], "P": op}` (LRUCache): the container accesses `P` makes inside the lock when started after
+the history `H` (`PF.Cache.Shared.lruAccesses`: the labelled micro-steps of `lruBody`), and `atomic_ok`: running those micro-steps in
+one go is `LRU.step` (`Implements lruBody`, re-evaluated).
+
+`cache.run` with `"allow0": true` also runs `max_size = 0` for hybrid (accepted by the constructor; `C14_hybrid_never_raises_iff`). -/
 open Lean PF.Drv PF.Cache
 
 def getOp (j : Json) : R Op := do
@@ -71,7 +83,10 @@ def specAgrees : LRU → Recency → List Op → Bool
 def lruJ (s : LRU) : Json := jObj [("queue", jList jNat s.queue), ("dict", jList jNat (keys s.dict))]
 def hybJ (s : Hyb) : Json :=
   jObj [("dict", jList jNat (keys s.dict)), ("ac", jList (jPair jNat jNat) s.ac), ("du", jList (jPair jNat jNat) s.du),
-        ("scores", jList (jPair jNat jNat) (Hyb.scores s))]
+        ("scores", jList (jPair jNat jNat) (Hyb.scores s)),
+        -- decided in Lean (Model/CachePolicyTies.lean, theorems in Props/C14Ties.lean): the next put's eviction hinges on float rounding;
+        -- the entries sharing the minimal exact score
+        ("amb", jBool s.floatAmbiguous), ("min_keys", jList jNat s.minKeys)]
 def simpleJ (s : Simple) : Json := jObj [("dict", jList jNat (keys s.dict))]
 def diskJ (s : Disk) : Json :=
   jObj [("files", jList (jPair jNat jNat) (stamps s.files)), ("lru", jOpt lruJ s.lru)]
@@ -102,8 +117,68 @@ def interleaveJ {σ L : Type} (B : PF.Cache.Shared.Body σ L) (M : Sem σ) (s0 :
   jObj [("lin", jList (fun e => jArr [jNat e.1, opJ e.2]) c.lin), ("log", jList (fun e => jArr [jNat e.1, jNat e.2.1, obsJ e.2.2.2]) c.log),
         ("lock", jOpt jNat c.lock), ("len", jOpt jNat (lenOf c.shared)), ("seq_ok", jBool seqOk)]
 
+/-- `H; clear; E` against `E` on a new container -/
+def clearFreshJ {σ} (M : Sem σ) (descr : σ → Json) (ks : List Key) (s0 : σ) (hist cont : List Op) : Json :=
+  match M.run s0 (hist ++ [.clear]) with
+  | .error e => jObj [("err", errJ e), ("after", jArr []), ("fresh", jArr []), ("same", jBool false)]
+  | .ok (s, _) =>
+    let a := trace M descr ks s cont
+    let f := trace M descr ks s0 cont
+    let obs : σ → Option (List Obs) := fun st => match M.run st cont with | .ok (_, os) => some os | .error _ => none
+    let errOf : σ → Option Err := fun st => match M.run st cont with | .ok _ => none | .error e => some e
+    let views : σ → List (Option Val) := fun st => match M.run st cont with | .ok (t, _) => ks.map (M.view t) | .error _ => []
+    jObj [("err", Json.null), ("after", jArr a.1), ("after_err", jOpt errJ a.2), ("fresh", jArr f.1), ("fresh_err", jOpt errJ f.2),
+          ("same", jBool (obs s == obs s0 && errOf s == errOf s0 && views s == views s0))]
+
 def handle (m : String) (a : Json) : R Json := do
   match m with
+  | "cache.accesses" =>
+    let hist ← listF getOp a "H"
+    let p ← getOp (← fld a "P")
+    let n ← natF a "max"
+    if n = 0 then .error "lru: max_size 0 is rejected by the constructor"
+    match lruSem.run (LRU.empty n) hist with
+    | .error e => return jObj [("err", errJ e)]
+    | .ok (s, _) =>
+      let atm := PF.Cache.Shared.lruBody.atomic s p
+      let ok := match s.step p with
+        | .ok (s', o) => o == atm.2 && s'.queue == atm.1.queue && keys s'.dict == keys atm.1.dict
+        | .error _ => false
+      return jObj [("err", Json.null), ("accesses", jList jStr (PF.Cache.Shared.lruAccesses s p)), ("atomic_ok", jBool ok),
+                   ("state", lruJ s)]
+  | "cache.clear_fresh" =>
+    let kind ← strF a "kind"
+    let hist ← listF getOp a "H"
+    let cont ← listF getOp a "E"
+    let ks ← listF asNat a "keys"
+    let max ← optF asNat a "max"
+    let isReopen : Op → Bool := fun | .reopen _ _ => true | _ => false
+    if kind != "disk" && (hist ++ cont).any isReopen then .error "reopen is a DiskCache operation"
+    match kind with
+    | "lru" =>
+      let some n := max | .error "lru: max required"
+      if n = 0 then .error "lru: max_size 0 is rejected by the constructor"
+      return clearFreshJ lruSem lruJ ks (LRU.empty n) hist cont
+    | "hybrid" =>
+      let some n := max | .error "hybrid: max required"
+      if n = 0 then .error "hybrid: max_size 0 is outside the property"
+      let (wa, wd) ← asPair asNat asNat (← fld a "weights")
+      return clearFreshJ hybSem hybJ ks (Hyb.empty n wa wd) hist cont
+    | "simple" => return clearFreshJ simpleSem simpleJ ks ⟨[]⟩ hist cont
+    | "disk" =>
+      let lru ← optF asNat a "lru"
+      if lru = some 0 then .error "disk: lru_cache_size 0 is rejected by the LRUCache constructor"
+      -- the new container of the theorem: same max_size / LRU size as the cleared one has at that moment (reopens in H change them)
+      match diskSem.run (Disk.empty max lru) hist with
+      | .error e => return jObj [("err", errJ e), ("after", jArr []), ("fresh", jArr []), ("same", jBool false)]
+      | .ok (s, _) =>
+        let j := clearFreshJ diskSem diskJ ks (Disk.empty max lru) hist cont
+        let f := trace diskSem diskJ ks (Disk.empty s.max (s.lru.map (·.max))) cont
+        let obs : Disk → Option (List Obs) := fun st => match diskSem.run st cont with | .ok (_, os) => some os | .error _ => none
+        return j.setObjVal! "fresh" (jArr f.1) |>.setObjVal! "fresh_err" (jOpt errJ f.2)
+          |>.setObjVal! "same" (jBool (obs s.clear == obs (Disk.empty s.max (s.lru.map (·.max)))))
+          |>.setObjVal! "fresh_cfg" (jArr [jOpt jNat s.max, jOpt jNat (s.lru.map (·.max))])
+    | _ => .error s!"unknown cache kind {kind}"
   | "cache.interleave" =>
     let kind ← strF a "kind"
     let sch ← listF getEv a "schedule"
@@ -131,7 +206,8 @@ def handle (m : String) (a : Json) : R Json := do
       return finishJ (trace lruSem lruJ ks (LRU.empty n) ops) (specAgrees (LRU.empty n) [] ops)
     | "hybrid" =>
       let some n := max | .error "hybrid: max required"
-      if n = 0 then .error "hybrid: max_size 0 is outside the property"
+      let allow0 := match fld? a "allow0" with | some (.bool true) => true | _ => false
+      if n = 0 && !allow0 then .error "hybrid: max_size 0 is outside the property"
       let (wa, wd) ← asPair asNat asNat (← fld a "weights")
       return finishJ (trace hybSem hybJ ks (Hyb.empty n wa wd) ops) true
     | "simple" => return finishJ (trace simpleSem simpleJ ks ⟨[]⟩ ops) true
